@@ -8,7 +8,7 @@
            ClickHouse binary in this environment; each clause says which documented behaviour it
            encodes.  It is deliberately small; anything outside the subset evaluates to None.
 
-   Three library functions are parameters (the same function on both sides): the RE2 matcher
+   Three library functions are section variables (the same function on both sides): the RE2 matcher
    behind ClickHouse match(), the Float64 parser behind toFloat64OrNull, and cityHash64.
    Float64 values are modelled as exact rationals.
 
